@@ -1,6 +1,33 @@
-"""C17 — exchange slice; see driver/exch.py and Props/C17.v"""
+"""C17 — exchange slice; see driver/exch.py, Props/C17.v and Props/C17sort.v.
+Both tiers: every admission of every trace is compared with Model/Sort.v's transcription of the standard library's
+stable sort (aspect sort_exact), with size_of::<Order>() as the harness observed it.
+Thorough tier in addition: sortval/run.sh — the sort model against the real `slice::sort_by` directly, on the real
+order types of /repo's working tree and synthetic element types, nine comparator families (inconsistent ones
+included: the real sort's panic is a compared outcome), lengths 0..70 densely and up to 5000."""
+import os
+import re
+import subprocess
+
 import exch
+from common import VERIF, workdir
 
 
 def run(res, tier, seed, replay):
-    return exch.run_property(res, "C17", tier, seed, replay, ["C17"])
+    ob = exch.run_property(res, "C17", tier, seed, replay, ["C17", "C17sort"])
+    if tier == "thorough" and not replay:
+        wd = workdir("sortval")
+        p = subprocess.run([os.path.join(VERIF, "sortval", "run.sh"), wd, "small", "medium", "large"],
+                           stdout=subprocess.PIPE, stderr=subprocess.STDOUT, text=True, timeout=6000)
+        lines = [l for l in p.stdout.split("\n") if l.startswith("profile ") and "cases:" in l]
+        res.coverage["std_sort_model_vs_real_sort_by"] = dict(
+            summary=lines, exit=p.returncode,
+            sizes=[l for l in p.stdout.split("\n") if "size=" in l])
+        n = sum(int(m.group(1)) for l in lines for m in [re.search(r"(\d+) cases", l)] if m)
+        res.coverage["evaluations"] = res.coverage.get("evaluations", 0) + n
+        if p.returncode != 0:
+            fails = [l for l in p.stdout.split("\n") if "FAIL" in l or "MISSING" in l][:20]
+            res.violation(dict(kind="correspondence", component="std-sort",
+                               broken="coq/Model/Sort.v no longer reproduces slice::sort_by of the installed toolchain "
+                                      "(or the order types of /repo changed size/layout in a way the probe does not follow)",
+                               failing_cases=fails, output_tail=p.stdout[-2000:]), "sortval", no_input=True)
+    return ob
